@@ -47,6 +47,7 @@ CONSTANTS Toks,      \* primary-key tokens used
           Limits,    \* table limits; INF = never spills
           Srcs,      \* subset of {"unsorted","asc","desc","sortasc","sortdesc"}
           Modes,     \* subset of {"direct","partials"}
+          B2s,       \* sorted partials: batch sizes of the merged stream fed to the partials-in aggregator
           Emit       \* TRUE: print one JSON line per finished behaviour
 
 INF  == 99
@@ -55,7 +56,7 @@ NONE == "NONE"
 AllToks == {"I1", "U1", "F1", "I2", "I3", "S", "MISS", "NI", "NS"}
 ASSUME Toks \subseteq AllToks /\ NSec \in 1..2 /\ MaxRows \in 1..7
 ASSUME Srcs \subseteq {"unsorted", "asc", "desc", "sortasc", "sortdesc"}
-ASSUME Modes \subseteq {"direct", "partials"}
+ASSUME Modes \subseteq {"direct", "partials"} /\ B2s \subseteq 1..3 /\ B2s # {}
 
 \* ------------------------------------------------------------- key tokens
 \* I1 = 1 (int64), U1 = 1 (uint64), F1 = 1. (float64), I2 = 2, I3 = 3,
@@ -99,11 +100,12 @@ KeySet == Toks \X (0 .. NSec - 1)
 \* row by row in stage "build" (so TLC enumerates them in parallel) and then
 \* started.
 Sorted(s) == s \in {"asc", "desc"}
+Min2(S) == CHOOSE x \in S : \A y \in S : x <= y
 \* rows are in pool order on the primary key
 LakeSorted(rows, desc) == \A i \in 1..(Len(rows) - 1) : SCmp(rows[i].key[1], rows[i + 1].key[1], desc) <= 0
 Seeds == {[src |-> s, mode |-> m, limit |-> l, keys |-> << >>, bat |-> << >>, b2 |-> x] :
-             s \in Srcs, m \in Modes, l \in Limits, x \in {1, 2}}
-ValidSeed(c) == /\ (c.b2 = 2 => c.mode = "partials" /\ Sorted(c.src))
+             s \in Srcs, m \in Modes, l \in Limits, x \in B2s}
+ValidSeed(c) == /\ (c.b2 # Min2(B2s) => c.mode = "partials" /\ Sorted(c.src))
                 /\ ~(c.mode = "partials" /\ c.src \in {"sortasc", "sortdesc"})   \* partials are composed for pool-ordered and unordered input only
 
 DirOf(c) == IF c.src \in {"asc", "sortasc"} THEN 1 ELSE IF c.src \in {"desc", "sortdesc"} THEN -1 ELSE 0
